@@ -737,6 +737,10 @@ def add_set_extras():
 ANSWERING = ("send", "disc", "build", "recv", "tmo", "take", "dump", "hello", "cupd", "supd")
 
 
+def answering_ops_srv(case):
+    return [l for l in case[1:] if l.split() and l.split()[0] in ANSWERING + ("it", "stop")]
+
+
 def answering_ops(case):
     return [l for l in case[1:] if l.split() and l.split()[0] in ANSWERING]
 
